@@ -538,6 +538,12 @@ class _hashes_stub:
 
 
 _PWS = ["correct horse", "Tr0ub4dor&3", ""]
+# (password the archive is created with, the OTHER password): unrelated ones, and near misses — differing only in surrounding white space
+# (a trailing newline from a secret file, a leading blank, a no-break space), in case, by one missing character, or in Unicode composition
+_PW_PAIRS = [("correct horse", "Tr0ub4dor&3"), ("Tr0ub4dor&3", "correct horse"), ("hunter2", "hunter2\n"), ("hunter2\n", "hunter2"),
+             (" hunter2", "hunter2"), ("hunter2", "hunter2\u00a0"), ("hunter2", "Hunter2"), ("hunter2", "hunter"), ("hunter2\t", "hunter2 "),
+             ("caf\u00e9", "cafe\u0301")]
+NPW33 = len(_PW_PAIRS)
 
 
 @obligation(quick=120, thorough=300, partitions_quick=[f"r1 == {a}" for a in (0, 1)],
@@ -545,19 +551,20 @@ _PWS = ["correct horse", "Tr0ub4dor&3", ""]
                  "interfaces): created with password p; a sequence of two reads in ONE process, each with p or with another password — every "
                  "read with p returns exactly the secrets, every read with another password fails and hands out no secret, whatever was "
                  "read before",
-            bounds={"reads": 2, "passwords": "2 non-empty passwords; the read password equal / different", "secrets": "1..2 deployments"})
+            bounds={"reads": 2, "passwords": "10 (password, other password) pairs: unrelated, and near misses (surrounding white space, case, one character "
+                                                   "less, Unicode composition); the read password equal / different", "secrets": "1..2 deployments"})
 def ob_encrypted_reads(r1: int, r2: int, two: bool, pwi: int) -> bool:
     """
-    pre: 0 <= r1 <= 1 and 0 <= r2 <= 1 and 0 <= pwi <= 1
+    pre: 0 <= r1 <= 1 and 0 <= r2 <= 1 and 0 <= pwi < NPW33
     post: _
     """
-    r1, r2, pwi = cint(r1, 0, 1), cint(r2, 0, 1), cint(pwi, 0, 1)
+    r1, r2, pwi = cint(r1, 0, 1), cint(r2, 0, 1), cint(pwi, 0, NPW33 - 1)
     two = True if two else False
     with untraced():
         saved = (_enc.AESGCM, _enc.PBKDF2HMAC, _enc.hashes)
         _enc.AESGCM, _enc.PBKDF2HMAC, _enc.hashes = _StubAEAD, _StubKDF, _hashes_stub
         try:
-            pw, other = _PWS[pwi], _PWS[1 - pwi]
+            pw, other = _PW_PAIRS[pwi]
             names = ["alpha", "beta"] if two else ["alpha"]
             deployments = [_cr(n, {"displayName": n}, False) for n in names]
             secrets = {n: {"stringData": {"TOKEN": "s3cret-" + n}} for n in names}
